@@ -23,6 +23,26 @@ CLAIMED = {
     note='Trusted: as C05. The theorem is about the driver only; the crash search is bounded by its generators.',
     technique='Lean 4 theorem (driver never stuck, over kernel-validated tables) + correspondence + impl-level crash search',
     ref='DESIGN.md §5 C02'),
+
+ 'C03': dict(
+    text='Proof. Theorem C03_full (Lean 4, all fragment expressions of any size with any user parentheses): an operator-precedence machine whose only '
+         'decision function is SLY resolve over the dialect precedence data re-groups the minimally parenthesised print of every expression exactly as the '
+         'stratified SQL grammar does (left-assoc chains, NOT/AND/OR/comparison/arithmetic strata, BETWEEN..AND, unary minus), instantiated for the three dialects '
+         'via the kernel-evaluated obligation sqlOrder on precedence data regenerated from the live grammars; and phi3b: in every state of the real LALR tables '
+         'with expr on top the action on every fragment operator equals the machine\'s decision (kernel-evaluated on the regenerated tables, all states).',
+    note='Trusted: Lean kernel; translator of Precedence/Production.prec and LR tables; the stratified reference grouping (OPM.addParens) as the reading of '
+         '"as SQL defines" (validated against sqlite3 by evaluation on every run); the simulation between OPM.parse and the LR driver beyond the per-state '
+         'conformance obligation is covered by the expression correspondence stream (6 contexts), not proved.',
+    technique='Lean 4 round-trip theorem for an operator-precedence machine + kernel-evaluated precedence/table-conformance obligations on translator-generated data',
+    ref='DESIGN.md §5 C03'),
+ 'C20': dict(
+    text='Proof (partial). Theorems C20_noninterference / C20_result_schedule_independent (all schedules, all numbers of calls): calls that step private '
+         'state and only read a shared store get results independent of the interleaving; C20_lazy_global: history independence of the lazily filled reserved-word set. '
+         'That parse_sql / plan_query / SqlalchemyRender have this structure is checked on the real code on every run (fresh objects, class-level state hashes, '
+         'caller inputs reused across calls, threads with a shared catalog, shuffled histories with failing calls, several PYTHONHASHSEED processes incl. error messages and canonical tables).',
+    note='Trusted: the structural assumptions are checked by execution, not proved; byte-code interleavings are sampled; finitely many hash seeds.',
+    technique='Lean 4 non-interference theorem over schedules + run-time checks of its assumptions on the implementation',
+    ref='DESIGN.md §5 C20'),
 }
 
 NOT_YET = 'not claimed yet in this round: the Lean theorem for this property is not finished (never claimed on testing alone); see DESIGN.md §5'
